@@ -16,10 +16,10 @@ claimed.update({
    note="Trusted: Go runtime + synctest, token scheduler, schedule-point placement; transports are recording stubs in the media family; the service family reads through the real RTSP/TCP, RTSP/UDP, ws-rtsp, WSP, HTTP-FLV and WebSocket-FLV consumers (one known finding: the tail of a stream stays in buffered.Conn, known_findings.json)."),
  "C02": dict(level="exploration", ref="§5 C02",
    text="Frame sequences packetised by an independent RFC 6184/7798 packetiser (single/STAP-A/AP/FU-A/FU, tape-chosen grouping and fragment sizes), H.264/H.265, cache_gop on/off, RTP- and FLV-level joiners attaching at tape-chosen points racing the publisher; oracle: a cut k inside the attach window exists with received = params(k) ++ gop(k) ++ published[k:] per a reference cache computed from the sender's NAL types; FLV header copies re-stamped to the first replayed tag.",
-   note="Trusted: as C01, plus the reference packetiser/classifier (harness/oracle). Parameter sets are never fragmented and precede their key frame in generated streams (stated in evidence)."),
+   note="Trusted: as C01, plus the reference packetiser/classifier (harness/oracle). Parameter sets are never fragmented and precede their key frame in generated streams (stated in evidence). One run in 24 publishes a single GOP of more than 1000 packets (the replay is the whole of it)."),
  "C04": dict(level="exploration", ref="§5 C04",
    text="1300-4000 packet streams with key-frame spacing from 1 to 400 (and none), a pacing-protected healthy consumer, a consumer blocked inside Consume for tape-chosen phases or for ever, and a panicking consumer; invariants after every publish (backlog <= 1000 + one GOP) and at the end (healthy got everything, drops begin at a key-frame packet and end before one, GOPs published below the limit are delivered whole, panicker detached and closed).",
-   note="Trusted: as C01. The limit 1000 is taken from the property text. In the media family stalls are modelled at the Consumer interface; the service family adds real clients that stop reading on a simulated socket (RTSP/TCP, HTTP-FLV) and requires the publisher and every other real client to be unaffected."),
+   note="Trusted: as C01. The limit 1000 is taken from the property text. In the media family stalls are modelled at the Consumer interface; the service family adds real clients that stop reading on a simulated socket (RTSP/TCP, HTTP-FLV) and requires the publisher and every other real client to be unaffected. Streams may repeat SPS/PPS packets in the middle of GOPs; a panicking consumer may also panic or block in its Close."),
  "C05": dict(level="exploration", ref="§5 C05",
    text="2-3 actors issuing register / unregister / lookup / attach / stop over two paths in many spellings with schedule points inside Regist and Unregist; recorded history checked for linearizability with porcupine against a sequential registry model, quiescent Count/Infos/lookup observations, and an end-of-run oracle after 16 simulated minutes for retirement and idle-close (simsched jobs on the fake clock).",
    note="Trusted: as C01, porcupine v1.3.0, the sequential model in scen/c05.go. Count/Infos are only observed at quiescent points. The api family drives DELETE /api/v1/streams/{path}, listings and real publisher/player sessions through the real mux."),
@@ -27,12 +27,12 @@ claimed.update({
 claimed.update({
  "C18": dict(level="fault_enumeration", ref="§5 C18",
    text="Tape-generated histories of user/route create/update/delete/flush on the real auth and route managers with their JSON providers on a simulated disk, checked against a model after every operation and after flush+restart; then exhaustively, for every flush of the history: process death before every file-system operation, torn writes at four offsets, ENOSPC/EIO at every operation followed by an immediate crash or by a retry. Oracle: a restarted server loads the complete previous or the complete new table, never fails to load, never falls back to admin/admin.",
-   note="Trusted: simfs (in-memory stand-in for os/ioutil, import-substituted), its crash model (process death, completed calls persist; no power-loss reordering), encoding/json. Exhaustive over crash points per flush, seeded over histories; after every crash-restart the server shrinks its tables, flushes and restarts once more. A second family (edits-during-flush) races an editor task against a flusher task with every manager lock and file-system operation a schedule point."),
+   note="Trusted: simfs (in-memory stand-in for os/ioutil, import-substituted), its crash model (process death, completed calls persist; no power-loss reordering), encoding/json. Exhaustive over crash points per flush, seeded over histories; after every crash-restart the server shrinks its tables, flushes and restarts once more. A second family (edits-during-flush) races an editor task against a flusher task with every manager lock and file-system operation a schedule point. The edits-during-flush family may run two editors at once (per-key outcome fixed by the last operations, every key listed at most once)."),
 })
 claimed.update({
  "C14": dict(level="exploration", ref="§5 C14",
    text="Messages over the header/URL/body grammar emitted by the real Request/Response/Packet Write methods, concatenated on a simulated connection whose reads return tape-chosen chunk sizes, with EOF at an arbitrary byte, garbage, an endless header line and an absurd Content-Length as faults; reader = the real receive dispatcher. Oracle: exactly the emitted sequence up to the fault, no invented message, error instead of panic/hang, bounded buffering and allocation for oversize input.",
-   note="Trusted: sim.Conn (TCP model: no loss/reorder), the comparison of multi-valued headers by joined value, thresholds stated in the evidence (1 MiB line, 4e8 Content-Length, 64 MiB allocation). The input grammar is sampled, not swept: only the chunking/EOF/fault dimension is what simulation adds."),
+   note="Trusted: sim.Conn (TCP model: no loss/reorder), the comparison of multi-valued headers by joined value, thresholds stated in the evidence (1 MiB line, 4e8 Content-Length, 64 MiB allocation). The input grammar is sampled, not swept: only the chunking/EOF/fault dimension is what simulation adds. A third of the requests/responses are written the way a peer implementation may (RFC 2326 field names, Content-Length and CSeq included, in any letter case; lookup by the standard name must answer); a third of the frames are relayed (read by ReadPacket under another channel map, written under this one)."),
 })
 claimed.update({
  "C12": dict(level="exploration", ref="§5 C12",
@@ -43,7 +43,7 @@ claimed.update({
    note="Trusted: sim.Conn, token scheduler, BeforeLock modelling of the per-session write mutex (reach probe lock.contended must be >0). The websocket family checks the message rule on ws-rtsp and on the WSP control/data channels (gorilla client on the other end)."),
  "C19": dict(level="exploration", ref="§5 C19",
    text="Real listener.Listener with the real RTSP and HTTP matchers over a simulated root listener; 1-3 connections whose first line comes from the method x target x version grammar or is clearly neither, written in tape-chosen segments with fake-clock pauses around the 15 s sniff timeout, read by stub services with 1..8192-byte buffers; oracle: reference classifier from the statement, byte stream identical and complete from the first byte, exactly one service or closed.",
-   note="Trusted: sim.Listener/sim.Conn, the reference classifier; first lines the statement leaves undefined (known method name followed by other letters; first bytes incomplete at the timeout) are not judged for routing, only for byte integrity."),
+   note="Trusted: sim.Listener/sim.Conn, the reference classifier; first lines the statement leaves undefined (known method name followed by other letters; first bytes incomplete at the timeout) are not judged for routing, only for byte integrity. Clearing a read deadline on the simulated connection is a schedule point, so the service can read before the listener has finished handing the connection over."),
 })
 claimed.update({
  "C06": dict(level="exploration", ref="§5 C06",
@@ -53,7 +53,7 @@ claimed.update({
 claimed.update({
  "C08": dict(level="exploration", ref="§5 C08",
    text="Generated frame sequences (H.264+AAC / H.265; IDR/IRAP, P, SEI, in-band parameter sets; 1 byte to 70 KiB; DTS bases 0, 1e6 s, just below 2^31 and 2^32 ms; PTS-DTS in {0,+80,-40} ms; audio older than the first video tag) pushed through the real flv.Muxer goroutine, stream FLV cache and the real HTTP-FLV handler/flv.Writer to 1-2 viewers joining at tape-chosen frames, with close-while-writing; an independent FLV+AMF0 reader checks header and type flags, PreviousTagSize chaining, metadata / decoder configuration (built from the actual parameter sets) / AAC configuration before media, one length-prefixed NAL per video tag equal to the source, key flag, audio payload, rebased timestamps and composition offsets.",
-   note="Trusted: the FLV/AMF0/avcC/hvcC reader in harness/oracle (written from the Adobe FLV and ISO 14496-15 layouts). Frames enter at media.Stream.WriteFrame (the RTP demuxer in front is C06's subject); the input dimension is sampled, simulation adds join point, goroutine interleaving and close-while-writing. WebSocket-FLV: see DESIGN.md."),
+   note="Trusted: the FLV/AMF0/avcC/hvcC reader in harness/oracle (written from the Adobe FLV and ISO 14496-15 layouts). Frames enter at media.Stream.WriteFrame (the RTP demuxer in front is C06's subject); the input dimension is sampled, simulation adds join point, goroutine interleaving and close-while-writing. WebSocket-FLV: see DESIGN.md. The rtp-inband-params family applies the same strict header-order and metadata rules to streams whose SDP names no parameter sets."),
 })
 claimed.update({
  "C07": dict(level="fault_enumeration", ref="§5 C07",
@@ -66,15 +66,15 @@ claimed.update({
 claimed.update({
  "C17": dict(level="exploration", ref="§5 C17",
    text="Histories of 3-10 route saves and deletes (direct and through the real HTTP API with an administrator token) over nested/overlapping directory patterns, exact patterns shadowing directories, differently spelled patterns and URLs with and without trailing slash, run by an admin task concurrently with a requester task doing lookups; every lookup is compared with a reference resolver on the table before or after the edit in flight; the returned route is mutated to prove it is a copy; two lookups per run go through GetOrCreate to a fake camera that records the URL it is asked for and the path the stream is published under.",
-   note="Trusted: the reference resolver in scen/c17.go (written from the statement), the fake camera, the HTTP loop of the harness. The table x path dimension is sampled (input enumeration is not this technique); simulation adds the concurrent edit and the pull leg. Empty route URLs are outside the statement's quantifier."),
+   note="Trusted: the reference resolver in scen/c17.go (written from the statement), the fake camera, the HTTP loop of the harness. The table x path dimension is sampled (input enumeration is not this technique); simulation adds the concurrent edit and the pull leg. Empty route URLs are outside the statement's quantifier. After all edits and lookups the table must read exactly as last saved."),
  "C20": dict(level="fault_enumeration", ref="§5 C20",
    text="A routed path requested through a real RTSP session (DESCRIBE/SETUP/PLAY) or by 2-3 racing requesters, with the pull client dialling a scripted fake camera: handshake step {connect, OPTIONS, DESCRIBE, SETUP video, SETUP audio, PLAY, streaming} x response kind {ok, refused, dial timeout, 404, 500, malformed, silence, reset, early EOF} x auth {none, Basic, Digest, never satisfied}; after a failure a second request meets a behaving camera. Oracle: success = right address and URL, credentials verified per RFC 2617 by the camera, stream under the requested path, camera packets relayed contiguously; failure = 404-style answer within the time budget, nothing registered, camera connection closed, counters back, later request dials afresh; concurrent requests end with one registered stream and no orphan connection after the requesters leave.",
-   note="Trusted: fake camera and its RFC 2617 verification, simnet dial seam (import-substituted into pull_client.go), sim.Conn. One (step, kind, auth) cell per run, seeded; all cells are reached in the quick tier (fault counters in the evidence)."),
+   note="Trusted: fake camera and its RFC 2617 verification, simnet dial seam (import-substituted into pull_client.go), sim.Conn. One (step, kind, auth) cell per run, seeded; all cells are reached in the quick tier (fault counters in the evidence). Simultaneous requesters are awaited with a 150 s budget (a hang is a violation, not an aborted run)."),
 })
 claimed.update({
  "C11": dict(level="exploration", ref="§5 C11",
    text="Authentication on; four users with pull/push rights over four streams; 0-2 administrator edits through the real API (narrow, widen, delete, re-create, password change); then 3-6 requests out of HTTP-FLV, HLS playlist and segment, RTSP digest play and publish, ws-rtsp upgrade plus a publish attempt through the WebSocket session, management API calls, token lifecycle (refresh token as access token, superseded token, invented token, expiry after 2 h on the fake clock) and an attacker deriving tokens from the identifiers disclosed to an unauthenticated client. Oracle: reference monitor decision(user, action, path) on the table as last saved with an independent pattern matcher: media / publication / management happens iff allowed (false grants and false refusals are both violations).",
-   note="Trusted: the reference matcher (harness/oracle/authz.go, written from docs/config.md and the property text), the harness HTTP/1.1 loop and gorilla WebSocket client over sim.Conn, the fake clock for token expiry. A ws-rtsp session opened before the edits is used after them; WSP (control+data channel, wrapped DESCRIBE/SETUP/PLAY) and WebSocket-FLV are entry points of their own; TLS is not simulated; the clock only moves forward."),
+   note="Trusted: the reference matcher (harness/oracle/authz.go, written from docs/config.md and the property text), the harness HTTP/1.1 loop and gorilla WebSocket client over sim.Conn, the fake clock for token expiry. A ws-rtsp session opened before the edits is used after them; WSP (control+data channel, wrapped DESCRIBE/SETUP/PLAY) and WebSocket-FLV are entry points of their own; TLS is not simulated; the clock only moves forward. WSP handshakes are also sent with the Connection header as a token list (only a grant is judged there); a playlist served to a caller must carry that caller own token only."),
 })
 pending = {
 }
